@@ -11,6 +11,10 @@ ORIENTS = ['N', 'S', 'E', 'W', 'FN', 'FS', 'FE', 'FW']
 
 def gen_design(rng):
     D = {'name': f'top{rng.randrange(100)}', 'units': 1000 * rng.randrange(1, 5), 'diearea': [(0, 0), (rng.randrange(100, 999), rng.randrange(100, 999))]}
+    if rng.random() < 0.4:
+        # rectilinear die outline given as a polygon (DIEAREA takes any number of points)
+        w, h = D['diearea'][1]
+        D['diearea'] = [(0, 0), (0, h), (w // 2, h), (w // 2, h // 2), (w, h // 2), (w, 0)][:rng.choice([4, 6])]
     D['rows'] = []
     for i in range(rng.randrange(0, 4)):
         horiz = rng.random() < 0.7
@@ -76,7 +80,7 @@ def pt(p):
 
 def render(D, rng):
     t = ['# generated', 'VERSION 5.8 ;', 'DIVIDERCHAR "/" ;', 'BUSBITCHARS "[]" ;', f'DESIGN {D["name"]} ;', f'UNITS DISTANCE MICRONS {D["units"]} ;',
-         f'DIEAREA ( {D["diearea"][0][0]} {D["diearea"][0][1]} ) ( {D["diearea"][1][0]} {D["diearea"][1][1]} ) ;']
+         'DIEAREA ' + ' '.join(f'( {x} {y} )' for x, y in D['diearea']) + ' ;']
     for r in D['rows']:
         t.append(f'ROW {r["name"]} {r["site"]} {r["x"]} {r["y"]} {r["orient"]} DO {r["nx"]} BY {r["ny"]} STEP {r["sx"]} {r["sy"]} ;')
     for k in D['tracks']:
